@@ -141,6 +141,14 @@ def docrootLine : List String → Option String
     match ofHex raw, hexAll xd with
     | some raw, some xd => some (showXsf (xsendfile2First (lc == "1") xd raw))
     | _, _ => some "bad-op"
+  | "xsfs" :: lc :: st :: raw :: xd =>
+    match st.toNat?, ofHex raw, hexAll xd with
+    | some st, some raw, some xd => some (showXsf (xsendfileAt (lc == "1") xd st raw))
+    | _, _, _ => some "bad-op"
+  | "xsfs2" :: lc :: st :: raw :: xd =>
+    match st.toNat?, ofHex raw, hexAll xd with
+    | some st, some raw, some xd => some (showXsf (xsendfile2At (lc == "1") xd st raw))
+    | _, _, _ => some "bad-op"
   | ["davdst", lc, sch, au, dr, sr, sp, de] =>
     match hexAll [sch, au, dr, sr, sp, de] with
     | some [sch, au, dr, sr, sp, de] =>
